@@ -16,7 +16,7 @@ RULE = (
     "tooled.inplace, probing on each single variable, on all variables, on all-but-one, on every subset "
     "when <=3 names, generic $x, meta variables, an external helper) x, for generators, where the generator "
     "is driven relative to the activation (inside it; created inside and first advanced after it ended; "
-    "advanced once inside and the rest after; advanced once and the rest in another contextvars.Context); oracle = the untouched function in a "
+    "advanced once inside and the rest after; advanced once and the rest in another contextvars.Context); plus focus-free (total) probes; oracle = the untouched function in a "
     "pristine twin world: result/exception, yield transcript, ordered effect log, final state of mutable "
     "arguments, module-globals diff. non-trivial = distinct (program, input, route) cases in which at "
     "least one interaction fired (probe event delivered) or the tooled code ran"
@@ -53,7 +53,7 @@ def units(tier):
 
 def configs_for(info, tier):
     names = info["params"] + info["locals"]
-    out = [("tooled",), ("inplace",), ("generic",), ("meta",)]
+    out = [("tooled",), ("inplace",), ("generic",), ("meta",), ("total",)]
     if "E" in info["symbols"]:
         out.append(("ext",))
     subsets = []
@@ -89,6 +89,10 @@ def selectors_for(cfg, info):
         return sels
     if cfg[0] == "ext":
         return ["f > E"]
+    if cfg[0] == "total":
+        # focus-free selectors: records are put together when the call ends (raw: a variable may take
+        # several values)
+        return ["f(x)", "f(#enter, #exit)"]
     return []
 
 
@@ -135,7 +139,7 @@ def run_config(prog, info, cfg, x, driver, part, placement=None):
         probes = []
         try:
             for s in sels:
-                p = probing(s, env={"f": w.f})
+                p = probing(s, env={"f": w.f}, raw=(cfg[0] == "total"))
                 p.subscribe(events.append)
                 p.__enter__()
                 probes.append(p)
